@@ -17,7 +17,7 @@ void cstl_raw_array_reverse(void * const arr,
                             cstl_swap_func_t * const swap,
                             void * const t)
 {
-    int i, j;
+    ssize_t i, j;
 
     for (i = 0, j = count - 1; i < j; i++, j--) {
         swap(__cstl_raw_array_at(arr, size, i),
@@ -33,10 +33,10 @@ ssize_t cstl_raw_array_search(const void * const arr,
                               cstl_compare_func_t * const cmp,
                               void * const priv)
 {
-    int i, j;
+    ssize_t i, j;
 
     for (i = 0, j = count - 1; i <= j;) {
-        const int n = (i + j) / 2;
+        const ssize_t n = i + (j - i) / 2;
         const int eq = cmp(ex, __cstl_raw_array_at(arr, size, n), priv);
 
         if (eq == 0) {
